@@ -172,6 +172,21 @@ def run(P, rep, tier):
             rep.ok(r5, inst, {'accepted_values': sorted(finite[0]) if finite else None})
     rep.floor(r5, 4)
 
+    # ---- R6 empty content is rejected -------------------------------------------------------------------------
+    r6 = rep.rule('C09-R6', 'a content call is accepted only with content known to be non-empty', reference=3)
+    emp = {}
+    for seq, res in collected:
+        for call, verdict in res.get('content_emptiness', []):
+            emp.setdefault(call, {}).setdefault(verdict, seq)
+    for call, vs in sorted(emp.items()):
+        if 'possibly-empty' in vs:
+            rep.violation(r6, 'empty-content-accepted:%s' % call, cls.find_method(call).loc(),
+                          '%s can be accepted (header and content written) although nothing on the path establishes that the '
+                          'caller\'s content is non-empty: empty content is not rejected' % call, path=[call], witness=fmt_seq(vs['possibly-empty']))
+        else:
+            rep.ok(r6, call)
+    rep.floor(r6, 3)
+
     # ---- R3 append-only ------------------------------------------------------------
     r3 = rep.rule('C09-R3', 'every operation on the writer\'s stream is write()', reference=5)
     attr = stream_attr(P, cls)
